@@ -8,6 +8,7 @@ import checks_types
 import checks_problem
 import checks_hist
 import checks_domain
+import checks_numeric
 
 CHECKS = {
     "C02": (lambda ctx: checks_core.run_core(ctx, "pre"), "model_checking"),
@@ -16,6 +17,7 @@ CHECKS = {
     "C06": (checks_types.run, "model_checking"),
     "C05": (checks_problem.run, "model_checking"),
     "C01": (checks_domain.run_c01, "model_checking"),
+    "C12": (checks_numeric.run, "model_checking"),
     "C20": (checks_core.run_c20, "model_checking"),
     "C18": (checks_core.run_c18, "model_checking"),
     "C04": (checks_hist.run_c04, "model_checking"),
@@ -144,6 +146,16 @@ META["C18"] = {
     "text": "MC_Rename checks over the bounded family and six maps that the renamed action has the same parameters up to "
             "renaming and the same Holds/Succ for every state and call; random actions are renamed in the library and the "
             "renamed copy's answers are judged against the spec's renamed AST."}
+META["C12"] = {
+    "engine": "M+V", "design_ref": "DESIGN.md section 6 (C12), 5.1",
+    "note": "Exact rational arithmetic in the spec versus doubles in the library: generated values are dyadic / short decimals; "
+            "the single point 'exactly one tolerance apart' is left open. 32-bit integers bound magnitudes (10^5 at the default "
+            "tolerance, 10^6 at 0.01).",
+    "technique": "TLC model checking of Eval / CmpTol laws (stack-machine refinement, negative controls) + trace validation of "
+                 "boundary probes, deep expression trees and print/re-read under three environment configurations",
+    "text": "MC_Numeric checks evaluation order and the comparison laws in the spec; per EPSILON / NUMERIC_PRECISION setting the "
+            "library answers boundary probes, evaluates deep expressions and prints constants, and TLC judges each answer "
+            "against Semantics!Eval / Rat!CmpTol and each printed text against the source expression."}
 NOT_YET = {}
 
 
